@@ -89,12 +89,16 @@ def _generate_next_n(cls):
         def inv(ctx):
             k = I(ctx.k)
             if ctx.phase == 'entry':
-                return [('nothing yielded yet', len(out) == 0)]
+                return [('nothing yielded yet', len(out) == 0),
+                        ('no complete-flagged element handed out yet', E.truth(ctx.local('is_complete_sent', ('assigned', 'False'))) is False)]
             if ctx.phase == 'head':
                 return []
             new = out[st['n0']:]
             np = produced[st['p0']:]
+            flag_now = B(E.truth(new[-1][1])) if new else B(st['last_complete'])
             return [('at most one element per unit of credit', len(new) <= 1),
+                    ('the function remembers whether the last element it handed out was flagged complete',
+                     B(E.truth(ctx.local('is_complete_sent', ('assigned', 'False')))) == flag_now),
                     ('the producer yields control to the event loop for every element it takes from the generator'
                      '[a peer granting a huge request-n must not block the connection]',
                      E.path.ghost.get('cooperative_yields', 0) - st['y0'] + st.get('susp', 0) >= len(np)),
@@ -105,6 +109,9 @@ def _generate_next_n(cls):
             st['y0'] = E.path.ghost.get('cooperative_yields', 0)
             st['susp'] = 0
             st['k'] = ctx.k
+            # ghost: was the last element handed out so far (in this call) flagged complete?  the local flag mirrors it
+            st['last_complete'] = E.fresh_bool('last_complete')
+            ctx.set_local('is_complete_sent', st['last_complete'], ('assigned', 'False'))
         spec = LoopSpec(inv, None, havoc=havoc)
         spec.nonterminating = True
         E.loop_specs[(GN, 0)] = spec
@@ -114,8 +121,16 @@ def _generate_next_n(cls):
         except PyExc as e:
             E.cover('finished-iterator')
             E.prove('generate_next_n:only_FinishedIterator_escapes', e.value.cls.name == 'FinishedIterator')
+            # FinishedIterator makes the feeder emit an empty completion: legitimate only if the stream was not completed yet
+            if 'last_complete' in st:
+                last = B(E.truth(out[-1][1])) if out[st['n0']:] else B(st['last_complete'])
+                E.prove('generate_next_n:exhaustion_is_signalled_only_if_no_complete_flagged_element_was_handed_out[no second completion]',
+                        z3.Not(last))
             return
         E.cover('finished')
+        if any(x.startswith('generator-exhausted:1') for x in E.path.sig) and 'last_complete' in st:
+            last = B(E.truth(out[-1][1])) if out[st['n0']:] else B(st['last_complete'])
+            E.prove('generate_next_n:silent_end_on_exhaustion_only_after_a_complete_flagged_element[otherwise the stream would never complete]', last)
         ctx = E.path.ghost['loops'][(GN, 0)]
         # yielded count <= iterations <= n :  each iteration yields at most one (invariant), iterations = k <= n
         E.prove('generate_next_n:iterations_bounded_by_the_credit', I(ctx.k) <= I(n))
